@@ -151,6 +151,9 @@ func c19Wrap(r *rand.Rand, text string, levels int, allowSeq bool) (string, int,
 		kind := "map"
 		if allowSeq && r.Intn(3) == 0 {
 			kind = "seq"
+			if r.Intn(3) == 0 {
+				kind = "item" // the content is a list item itself (a list in a list when the content is a rule list)
+			}
 		}
 		for i := 0; i < before; i++ {
 			out = append(out, fmt.Sprintf("sibling%d_%d: %s", lv, i, []string{"1", "text", "[a, b]", "{k: v}", "'q'"}[r.Intn(5)]))
@@ -168,6 +171,28 @@ func c19Wrap(r *rand.Rand, text string, levels int, allowSeq bool) (string, int,
 			dl += before + 1
 			dc += ind
 			shape = append(shape, fmt.Sprintf("map(ind=%d,before=%d,after=%d)", ind, before, after))
+		case "item":
+			// key:
+			//   - other: 1        (optional earlier item)
+			//   -
+			//       <content>
+			out = append(out, key+":")
+			pre := r.Intn(2)
+			if pre == 1 {
+				out = append(out, strings.Repeat(" ", ind)+"- other: 1")
+			}
+			out = append(out, strings.Repeat(" ", ind)+"-")
+			cind := ind + 1 + r.Intn(4)
+			for _, l := range lines {
+				if l == "" {
+					out = append(out, "")
+				} else {
+					out = append(out, strings.Repeat(" ", cind)+l)
+				}
+			}
+			dl += before + 2 + pre
+			dc += cind
+			shape = append(shape, fmt.Sprintf("seq-item(ind=%d,before=%d,after=%d,pre=%d)", cind, before, after, pre))
 		case "seq":
 			// key:
 			//   - other: 1        (optional earlier item)
